@@ -96,6 +96,8 @@ func (o WorkerGroupConf) CanContinueOnError(err error) bool {
 		return true
 	case errors.Is(err, io.EOF):
 		return false
+	case len(o.ExcludedErrors) > 0 && ers.Is(err, o.ExcludedErrors...):
+		return o.ContinueOnError
 	case ers.IsExpiredContext(err):
 		if o.IncludeContextExpirationErrors {
 			o.ErrorHandler(err)
